@@ -712,14 +712,23 @@ Next:
   // -------------------------
 
   if (extra_reg.is_reg()) {
+    // The id of the extra register is validated the same way as the id of a register operand - it's either a physical
+    // id of a register that exists or a virtual id, which is only legal if virtual registers were enabled.
+    uint32_t extra_reg_id = extra_reg.id();
+    bool extra_reg_is_virt = extra_reg_id >= Operand::kVirtIdMin;
+
+    if (ASMJIT_UNLIKELY(extra_reg_is_virt && uint32_t(validation_flags & ValidationFlags::kEnableVirtRegs) == 0)) {
+      return make_error(Error::kIllegalVirtReg);
+    }
+
     if (Support::test(options, kRepAny)) {
       // Validate REP|REPNE {cx|ecx|rcx}.
       if (ASMJIT_UNLIKELY(Support::test(inst_flags, InstDB::InstFlags::kRepIgnored))) {
         return make_error(Error::kInvalidExtraReg);
       }
 
-      if (extra_reg.is_phys_reg()) {
-        if (ASMJIT_UNLIKELY(extra_reg.id() != Gp::kIdCx)) {
+      if (!extra_reg_is_virt) {
+        if (ASMJIT_UNLIKELY(extra_reg_id != Gp::kIdCx)) {
           return make_error(Error::kInvalidExtraReg);
         }
       }
@@ -737,8 +746,15 @@ Next:
         return make_error(Error::kInvalidExtraReg);
       }
 
-      if (ASMJIT_UNLIKELY(extra_reg.id() == 0 || !common_info.has_avx512_k())) {
+      if (ASMJIT_UNLIKELY(extra_reg_id == 0 || !common_info.has_avx512_k())) {
         return make_error(Error::kInvalidKMaskUse);
+      }
+
+      // Only k1..k7 exist - the assembler would put any other id into the EVEX prefix unmasked.
+      if (!extra_reg_is_virt) {
+        if (ASMJIT_UNLIKELY(extra_reg_id >= 32 || Support::bit_test(vd->allowed_reg_mask[size_t(RegType::kMask)], extra_reg_id) == 0)) {
+          return make_error(Error::kInvalidPhysId);
+        }
       }
     }
     else {
